@@ -24,11 +24,16 @@ Definition route_code (eps : list bytes) (r : route) : N * bytes :=
   | RRejected => (0, [])
   | RNoLookup => (1, [])
   | RLookupErr => (2, [])
+  | ROtherErr => (2, [])
   | RHome => (3, [])
   | RHomeMissing => (5, [])
+  | RNoDest => (5, [])
   | RNotFound _ => (5, [])
   | RForward a => (6, a)
   | REndpoint _ n => (7, n)
+  | RPanic => (8, [])
+  | RNilConn => (10, [])
+  | RStuck => (11, [])
   end.
 
 Definition obs_eqb (a b : obs) : bool :=
@@ -66,9 +71,12 @@ Definition mode_of (m : N) : tunnel_mode :=
 
 Inductive rcase :=
 | RcReject (name : bytes) (ip : bool) (obs_rejected : bool)
-| RcRoute (has_lk : bool) (table : list (bytes * option dest)) (has_home : bool)
+| RcRoute (has_lk : bool) (table : list (bytes * lookup_res)) (has_home : bool)
           (eps : list bytes) (sni : bytes) (ip : bool)
           (obs_rejected obs_dialed : bool) (obs_code : N) (obs_arg : bytes)
+| RcFront (has_lk : bool) (entry : lookup_res) (has_home : bool) (eps : list bytes)
+          (sniff_ok : bool) (name : bytes) (ip : bool) (dial_ok : bool)
+          (obs_joined obs_closed : bool)
 | RcOffice (ops : list op) (expect : list obs)
 | RcConns (ops : list cop) (expect : list cobs)
 | RcIds (n : nat) (sorted_ids : list N)
@@ -84,17 +92,31 @@ Definition check_case (c : rcase) : bool :=
       end
   | RcRoute has_lk table has_home eps sni ip obs_rejected obs_dialed obs_code obs_arg =>
       let is_ip := fun _ : bytes => ip in
+      (* a name the table does not list: the harness's lookup answers (nil, error) *)
       let cfg := mkCfg has_lk
-                   (fun d => match assoc_bytes d table with Some (Some x) => Some x | _ => None end)
+                   (fun d => match assoc_bytes d table with Some x => x | None => mkLk None true end)
                    has_home (fun n => index_bytes n eps 0) in
       match run_rj is_ip gen_rejected_steps sni with
       | Some rj => Bool.eqb rj obs_rejected
       | None => false
       end &&
-      let r := decide is_ip gen_rejected_suffixes cfg sni in
+      (* the emitted statements, interpreted ... *)
+      let r := run_host is_ip gen_rejected_steps gen_dial_steps cfg sni in
       let '(code, arg) := route_code eps r in
       Bool.eqb obs_dialed (negb (code =? 0)) &&
-      (if obs_dialed then (code =? obs_code) && beqb arg obs_arg else true)
+      (if obs_dialed then (code =? obs_code) && beqb arg obs_arg else true) &&
+      (* ... and the closed form the theorems are about *)
+      let '(code', arg') := route_code eps (decide is_ip gen_rejected_suffixes cfg sni) in
+      (code' =? code) && beqb arg' arg
+  | RcFront has_lk entry has_home eps sniff_ok name ip dial_ok obs_joined obs_closed =>
+      (* the emitted hostConn + Server.dial on one end-to-end refusal scenario *)
+      let cfg := mkCfg has_lk (fun _ => entry) has_home (fun n => index_bytes n eps 0) in
+      match run_front (fun _ => ip) gen_rejected_steps gen_dial_steps cfg
+                      (if sniff_ok then Some name else None) dial_ok gen_host_steps hs0 with
+      | FOut o => Bool.eqb (fo_joined o) obs_joined &&
+                  (if obs_joined then true else Bool.eqb (fo_front_closed o) obs_closed)
+      | _ => false
+      end
   | RcOffice ops expect => list_eqb obs_eqb (snd (run office_init ops)) expect
   | RcConns ops expect => list_eqb cobs_eqb (snd (crun ctable_init ops)) expect
   | RcIds n ids => list_eqb N.eqb (ids_of (snd (run office_init (repeat ONext n)))) ids
